@@ -150,6 +150,13 @@ def alias(u: Unit):
                             aliased[bucket] = True
                         else:
                             u.oblige(p, f"alias.export_is_fresh[{bucket}]", bool(base >= p.ex.heap_mark), {}, REC_REPLAY)
+    # The debug capture takes a snapshot after every MODEL, i.e. in the middle of a step, where no Detector.empty intervenes before the next
+    # model writes in place (Charge.add_charge_array: `self._array += ...`): for the records of a step to keep "what the detector held after
+    # that model", no container may hand out its live buffer at all
+    for bucket, _ in table:
+        u.static(f"alias.export_never_hands_out_the_live_buffer[{bucket}]", not aliased.get(bucket), dict(table)[bucket],
+                 f"{bucket}.to_xarray: " + ("hands xarray the container's own array (a later in-place write changes every record made before)" if aliased.get(bucket) else "a fresh copy"),
+                 replay=lambda w: DEBUGREC_REPLAY(w), witness={"bucket": bucket})
     fe = u.fn(f"{D.DET}::Detector.empty")
     u.assume_note("exported containers that alias their live buffer (computed this run): " + (", ".join(sorted(aliased)) or "none"))
     held = {}
@@ -494,3 +501,58 @@ def _run_mode_dispatch(u: Unit):
 
 
 unit("C03", "run_mode.dispatch")(_run_mode_dispatch)      # what run_mode returns IS what the mode's run returned; debug / layout flags reach the run as given
+
+
+# ---- debug capture: the reference snapshot a model's buckets are compared against -------------------------------------------------------
+DEBUGREC_REPLAY = lambda w: {"code": """
+import sys, types, numpy as np, verif_probes as VP
+from pyxel.pipelines import DetectionPipeline, ModelFunction, Processor
+from pyxel.exposure import Readout, run_pipeline
+mod = types.ModuleType('c03_debug')
+def add_array(detector, amount=1.0):                 # in place, as simple_dark_current / charge_injection do
+    detector.charge.add_charge_array(np.full(detector.geometry.shape, float(amount)))
+def set_pixel(detector, value=1.0):
+    detector.pixel.array = np.full(detector.geometry.shape, float(value))
+mod.add_array, mod.set_pixel = add_array, set_pixel
+sys.modules['c03_debug'] = mod
+pipe = DetectionPipeline(charge_generation=[ModelFunction(func='c03_debug.add_array', name='first', arguments={'amount': 5.0}),
+                                            ModelFunction(func='c03_debug.add_array', name='second', arguments={'amount': 7.0}),
+                                            ModelFunction(func='c03_debug.add_array', name='third', arguments={'amount': 0.0})],
+                         charge_collection=[ModelFunction(func='c03_debug.set_pixel', name='collect', arguments={'value': 3.0})])
+r = run_pipeline(processor=Processor(detector=VP.detector(), pipeline=pipe), readout=Readout(times=[1.0, 3.0]), outputs=None, debug=True, with_inherited_coords=False)
+VIOLATED, DETAIL = False, 'after each model the debug record lists the buckets that model changed'
+inter = r['/intermediate'] if '/intermediate' in r.groups else r['intermediate']
+for step in (0, 1):
+    for model, want in (('charge_generation/first', 5.0), ('charge_generation/second', 12.0)):
+        node = inter[f'time_idx_{step}/{model}']
+        names = list(node.data_vars) if hasattr(node, 'data_vars') else list(node.ds.data_vars)
+        if 'charge' not in names:
+            VIOLATED, DETAIL = True, f'readout {step}: model {model.split("/")[1]!r} added charge in place but its debug record holds {names}'; break
+        if not np.allclose(np.asarray(node['charge']), want):
+            VIOLATED, DETAIL = True, f'readout {step}: record of {model}: charge {float(np.asarray(node["charge"]).ravel()[0])}, the detector held {want}'; break
+    if VIOLATED: break
+    node = inter[f'time_idx_{step}/charge_generation/third']
+    names = list(node.data_vars) if hasattr(node, 'data_vars') else list(node.ds.data_vars)
+    if 'charge' in names:
+        VIOLATED, DETAIL = True, f'readout {step}: model third changed nothing but its record lists {names}'; break
+""", "expect": "each model's debug record holds exactly the buckets it changed, in-place additions to the charge array included"}
+
+
+@unit("C03", "debug.reference_snapshot")
+def debug_reference_snapshot(u: Unit):
+    """The debug capture of ModelGroup.run compares every bucket of the detector's snapshot with the snapshot kept from the previous model
+    (node 'last') and records the buckets that differ. Charge.to_xarray hands out the LIVE per-pixel array (unit `alias`: models add to it
+    in place), so the kept snapshot must be a deep copy of the dataset: the value stored under 'last' is, after resolving locals,
+    `DataTree(<snapshot>.copy(deep=True))` (or a deepcopy of it). Data-flow obligation on the real source + native scenario."""
+    from . import defuse as DU
+    fn = u.fn("pyxel/pipelines/model_group.py::ModelGroup.run")
+    stores = []
+    for nd in ast.walk(fn.node):
+        if isinstance(nd, ast.Assign) and len(nd.targets) == 1 and isinstance(nd.targets[0], ast.Subscript):
+            tgt = nd.targets[0]
+            key = DU.norm(fn.node, tgt.slice)
+            if ast.unparse(tgt.value).endswith("intermediate") and key in ("'last'", '"last"'):
+                stores.append(DU.norm(fn.node, nd.value))
+    ok = bool(stores) and all(("copy(deep=True)" in e.replace(" ", "")) or "deepcopy(" in e for e in stores)
+    u.static("debug.reference_snapshot_is_a_deep_copy", ok, fn.qualname, f"value stored under intermediate['last']: {stores}", replay=DEBUGREC_REPLAY, witness={"stored": stores})
+    u.static("debug.reference_snapshot.cover", len(stores) >= 1, fn.qualname, f"{len(stores)} assignments to intermediate['last'] found")
